@@ -134,6 +134,8 @@ def pmap(func, items, into, nshards=None, nproc=None):
                 code = 0
                 try:
                     os.close(r)
+                    dn = os.open(os.devnull, os.O_WRONLY)   # the library prints from inside (e.g. 'Initializing ODE Rule')
+                    os.dup2(dn, 1)
                     c = _run_items(func, sh)
                     data = pickle.dumps(c, protocol=pickle.HIGHEST_PROTOCOL)
                     with os.fdopen(w, 'wb') as f:
